@@ -38,7 +38,9 @@ CHECKS = {
         technique='Coq proofs (frame laws, generated frame-routine obligations, uniform fibres, loop folding) + oracle correspondence '
                   'and exact byte comparison on the bulk sampler',
         text='Proof: (G) every unitary FrameSimulator routine and its dispatch is regenerated from source and proved equal to the '
-             'unsigned table action; frame laws frame_meas_det / frame_post_rnd / frame_extra_commuting / post_rnd_other_outcome / '
+             'unsigned table action; its measurement / reset routines are executed symbolically from source and proved to record '
+             'omega(basis, frame), to keep / clear exactly the anticommuting component and to randomise along the basis only '
+             '(GenProofs_FrameMeas); frame laws frame_meas_det / frame_post_rnd / frame_extra_commuting / post_rnd_other_outcome / '
              'shift_stab at the predicate level; fibers_equal (uniformity on the affine space); fold_loop_correct (compressed '
              'reference sample). (O) every bulk shot is checked against the specification with the verified solver; 4096-shot runs '
              'check unbiasedness at 7 sigma and uniformity over the 2^r reachable records; outcome-deterministic circuits must give '
@@ -62,7 +64,7 @@ CHECKS = {
     'C04': dict(
         technique='Coq lemmas on the specification (detector form = XOR of named record forms under every assignment) + oracle '
                   'correspondence on same-run tables, m2d and the CLI option matrix',
-        text='Proof: parity_form_is_xor_of_values (for every assignment of coins/faults/sweeps a detector or observable form evaluates '
+        text='Proof: FrameSimulator measurement / reset routines regenerated from source record omega(basis, frame) (GenProofs_FrameMeas); parity_form_is_xor_of_values (for every assignment of coins/faults/sweeps a detector or observable form evaluates '
              'to the XOR of the measurement values it names), detector/observable step lemmas, generated frame-routine obligations. '
              'Tie O: in one run of the real FrameSimulator (STORE_EVERYTHING_TO_MEMORY) every detector/observable row is recomputed '
              'from that run\'s measurement-flip rows at the index sets the specification assigns; m2d on random measurement and sweep '
